@@ -54,6 +54,7 @@ class Gauge:
         self.hw = 0
         self.events: list[tuple[str, Any]] = []
         self.unknown_peers = 0
+        self.raise_keys: set[Any] = set()  # fault injection: serve() of these connections raises when it is done
 
     def enter(self, key: Any) -> None:
         with self.cond:
@@ -99,6 +100,9 @@ class GaugedServer(RpcServer):
         g.enter(key)
         try:
             super().serve(transport)
+            if key in g.raise_keys:
+                # injected fault: an exception escaping serve() -- what _handle's except / finally is there for
+                raise RuntimeError("c41: injected failure of serve()")
         finally:
             g.exit(key)
 
@@ -278,7 +282,7 @@ class Client:
 
 # --------------------------------------------------------------------------- the controller
 def run_case(handle: ServerHandle, scripts: list[list[list[Any]]], rng: Any, tag: str, presend: bool = True,
-             fixed_schedule: list[int] | None = None, is_crash: Any = None) -> dict[str, Any]:
+             fixed_schedule: list[int] | None = None, is_crash: Any = None, serve_raises: tuple[int, ...] = ()) -> dict[str, Any]:
     """Run the connection scripts concurrently under a seeded client-side schedule.
 
     Returns {"traces": per connection list of per-call traces, "schedule": observed linearisation (list of connection
@@ -372,6 +376,8 @@ def run_case(handle: ServerHandle, scripts: list[list[list[Any]]], rng: Any, tag
             c = clients[i]
             if phase[i] == "fresh":
                 c.key, c.transport = handle.connect(f"{tag}-c{i}.sock")
+                if i in serve_raises:
+                    g.raise_keys.add(c.key)
                 c.proxy = RpcConnection(I.Interp, c.transport, on_log=c.rec.on_log).__enter__()
                 phase[i] = "queued"
                 log(i)
@@ -415,6 +421,8 @@ def run_case(handle: ServerHandle, scripts: list[list[list[Any]]], rng: Any, tag
             if c.key is not None and c.key[0] == "unix":
                 with contextlib.suppress(OSError):
                     os.unlink(c.key[1])
+    for c in clients:
+        g.raise_keys.discard(c.key)
     # every connection that entered serve must leave it once its client is gone
     if not g.wait_for(lambda: not g.active, STEP_TIMEOUT):
         anomalies.append("connections-still-inside-serve-after-all-clients-disconnected")
